@@ -9,7 +9,7 @@ import (
 // Skeleton programs for dependency / fork shapes that the purely random
 // generator reaches rarely.  Types and literal values are still random.
 
-const NTemplates = 11
+const NTemplates = 12
 
 // NFileTemplates file-passing skeletons follow the NTemplates dataflow ones.
 const NFileTemplates = 8
@@ -305,6 +305,33 @@ func Template(kind int, seed int64, cfg *Config) *Program {
 				{Callee: "INNER", Alias: "M2", Map: true, Binds: []Binding{{Id: "skip", Exp: lits, Split: true}, {Id: "k", Exp: lit(s2)}}},
 			},
 			Ret: []Binding{{Id: "y", Exp: ref("M1", "y")}, {Id: "y2", Exp: ref("M2", "y")}}}
+		p.Pipelines = []*Pipeline{inner, top}
+	case 11:
+		// nested map calls over literals whose inner collections are all empty
+		// (and a variant with one non-empty element)
+		inner := &Pipeline{Name: "INNER", Ins: []Param{{Name: "m", Type: TMapOf(TInt)}, {Name: "a", Type: ArrayOf(TInt)}},
+			Outs: []Param{{Name: "ym", Type: TMapOf(TInt)}, {Name: "ya", Type: ArrayOf(TInt)}},
+			Calls: []*Call{
+				{Callee: "CHAIN", Alias: "BYKEY", Map: true, Binds: []Binding{{Id: "x", Exp: self("m"), Split: true}}},
+				{Callee: "CHAIN", Alias: "BYIDX", Map: true, Binds: []Binding{{Id: "x", Exp: self("a"), Split: true}}},
+			},
+			Ret: []Binding{{Id: "ym", Exp: ref("BYKEY", "y")}, {Id: "ya", Exp: ref("BYIDX", "y")}}}
+		p.Stages = append(p.Stages, src(&Stage{Name: "CHAIN", Ins: []Param{{Name: "x", Type: TInt}}, Outs: []Param{{Name: "y", Type: TInt}}}))
+		emptyM := func() *Exp { return &Exp{Kind: EMap} }
+		emptyA := func() *Exp { return &Exp{Kind: EArray} }
+		oneM := &Exp{Kind: EMap, Keys: []string{"a"}, Elems: []*Exp{lit(s1)}}
+		oneA := &Exp{Kind: EArray, Elems: []*Exp{lit(s2)}}
+		top := &Pipeline{Name: "TOP", Outs: []Param{{Name: "e", Type: ArrayOf(TMapOf(TInt))}, {Name: "f", Type: ArrayOf(ArrayOf(TInt))}, {Name: "g", Type: ArrayOf(TMapOf(TInt))}},
+			Calls: []*Call{
+				{Callee: "INNER", Alias: "ALLEMPTY", Map: true, Binds: []Binding{
+					{Id: "m", Exp: &Exp{Kind: EArray, Elems: []*Exp{emptyM(), emptyM()}}, Split: true},
+					{Id: "a", Exp: &Exp{Kind: EArray, Elems: []*Exp{emptyA(), emptyA()}}, Split: true}}},
+				{Callee: "INNER", Alias: "SOMEEMPTY", Map: true, Binds: []Binding{
+					{Id: "m", Exp: &Exp{Kind: EArray, Elems: []*Exp{emptyM(), oneM}}, Split: true},
+					{Id: "a", Exp: &Exp{Kind: EArray, Elems: []*Exp{oneA, emptyA()}}, Split: true}}},
+			},
+			Ret: []Binding{{Id: "e", Exp: ref("ALLEMPTY", "ym")}, {Id: "f", Exp: ref("ALLEMPTY", "ya")}, {Id: "g", Exp: ref("SOMEEMPTY", "ym")}}}
+		p.Stages = p.Stages[len(p.Stages)-1:]
 		p.Pipelines = []*Pipeline{inner, top}
 	default:
 		fk := kind - NTemplates // file-passing skeleton number
